@@ -1428,7 +1428,7 @@ def generate(rng, tier, override=0):
     if override:
         n = override
     else:
-        n = 140 if tier == "quick" else 2500
+        n = 600 if tier == "quick" else 12000
     kinds = [(case_tree, 0.42), (case_size, 0.2), (case_attrs, 0.1), (case_reply, 0.12), (case_errnew, 0.03),
              (case_hostile, 0.08), (case_misuse, 0.05)]
     # every exact size around the first buffer once per run
